@@ -13,12 +13,36 @@ from .. import env, tcpwork
 from ..fakes import tcp_device as td
 from ..prop import Prop
 from ..ref import frames
+from .. import ops
 
 ALPHABET = ["connect", "op_ok", "op_raise", "drop", "disconnect", "refused", "ctx_ok", "ctx_exc", "op_big"]
 
 
 class Boom(Exception):
     pass
+
+
+class Hung(Exception):
+    """A lifecycle call neither returned nor raised within the real-time limit."""
+
+
+async def bounded(coro, limit=15.0):
+    """Await coro under a watchdog on the real clock (the wall clock seen by the library is virtual and may be stepped)."""
+    import time as _t
+
+    task = asyncio.ensure_future(coro)
+    t0, spins = _t.monotonic(), 0
+    while not task.done():
+        spins += 1
+        await asyncio.sleep(0 if spins < 300 else 0.002)
+        if _t.monotonic() - t0 > limit:
+            task.cancel()
+            try:
+                await task
+            except BaseException:
+                pass
+            raise Hung(f"no result after {limit:.0f} s")
+    return task.result()
 
 
 BODY_EXCEPTIONS = (Boom, ConnectionResetError, TimeoutError, ValueError, ConnectionRefusedError, RuntimeError, BrokenPipeError, KeyError)
@@ -136,18 +160,8 @@ class C18(Prop):
                 break
             await asyncio.sleep(0)
         bconn = self.dev2.conns[-1] if len(self.dev2.conns) > n2 else None
-        model = False
         cur = {"conn": None, "port": None, "dropped": False}
         trace = []
-
-        def check_flag(after):
-            got = api.connected
-            if got is not model:
-                mech = "connected-after-disconnect" if (got and not model) else "not-connected-after-connect"
-                if after in ("refused",):
-                    mech = "connected-after-refused-connect"
-                acc.violation(mech, f"type {t} history {history}: after {after!r} connected={got}, model says {model}",
-                              {"history": history, "after": after, "trace": trace})
 
         async def note_new_conn(before):
             for _ in range(300):
@@ -191,16 +205,57 @@ class C18(Prop):
             except Exception as exc:
                 return type(exc).__name__
 
+        import time_machine
+
+        rs = env.rng("C18t", t, history)
+        tm = time_machine.travel(1_770_000_000.0 + rs.randrange(10 ** 6), tick=False)
+        traveller = tm.start()
+        steps = []
+        try:
+            await self._actions(locals())
+        finally:
+            tm.stop()
+        await self._after(locals())
+
+    async def _actions(self, L):
+        acc, history, t, api, dev, mode, cur, trace = (L[k] for k in ("acc", "history", "t", "api", "dev", "mode", "cur", "trace"))
+        note_new_conn, expect_eof, do_op, bystander, bconn, rs, traveller, steps = (
+            L[k] for k in ("note_new_conn", "expect_eof", "do_op", "bystander", "bconn", "rs", "traveller", "steps"))
+        model = False
+
+        def check_flag(after):
+            got = api.connected
+            if got is not model:
+                mech = "connected-after-disconnect" if (got and not model) else "not-connected-after-connect"
+                if after in ("refused",):
+                    mech = "connected-after-refused-connect"
+                acc.violation(mech, f"type {t} history {history}: after {after!r} connected={got}, model says {model}",
+                              {"history": history, "after": after, "trace": trace})
+
+        def hung(what, exc):
+            trace.append(f"{what} hung")
+            acc.violation(f"{what}-never-completes", f"type {t} history {history}: {what} with a listening, answering device: {exc}; the wall clock was "
+                          f"stepped by {steps[-4:]} s before the last actions", {"history": history, "trace": trace, "clock_steps": steps})
+
         for a in history:
             acc.ev()
             acc.count(f"action_{a}")
+            # the host's wall clock is not monotonic: NTP steps, manual corrections, suspended machines
+            step = rs.choice([0, 0, 0, 1, 75, 3600, -2, -1800, -86400])
+            steps.append(step)
+            if step:
+                traveller.shift(step)
+                acc.count("clock_steps_forward" if step > 0 else "clock_steps_backward")
             if a == "connect":
                 before = len(dev.conns)
                 mode["login"] = "ok"
                 try:
-                    await api.connect()
+                    await bounded(api.connect())
                     model = True
                     trace.append("connect ok")
+                except Hung as exc:
+                    hung("connect", exc)
+                    break
                 except Exception as exc:
                     trace.append(f"connect raised {type(exc).__name__}")
                     acc.violation("connect-failed", f"history {history}: connect to a listening device raised {type(exc).__name__}: {exc}", {"history": history})
@@ -244,8 +299,11 @@ class C18(Prop):
                 trace.append(f"drop {out1} {out2} {out3}")
             elif a == "disconnect":
                 try:
-                    await api.disconnect()
+                    await bounded(api.disconnect())
                     trace.append("disconnect ok")
+                except Hung as exc:
+                    hung("disconnect", exc)
+                    break
                 except Exception as exc:
                     trace.append(f"disconnect raised {type(exc).__name__}")
                     acc.count("disconnect_raised")
@@ -258,12 +316,17 @@ class C18(Prop):
             elif a == "refused":
                 await dev.stop()
                 try:
-                    await api.connect()
+                    await bounded(api.connect())
                     trace.append("refused: connect returned")
                     acc.violation("refused-connect-returned", f"history {history}: connect to a closed port returned", {"history": history})
                     model = True
                 except OSError as exc:
                     trace.append(f"refused: {type(exc).__name__}")
+                except Hung as exc:
+                    hung("refused-connect", exc)
+                    await dev.start()
+                    dev.conns.clear()
+                    break
                 except Exception as exc:
                     trace.append(f"refused: {type(exc).__name__}")
                     acc.violation("refused-connect-wrong-exception", f"history {history}: refused connect raised {type(exc).__name__}", {"history": history})
@@ -272,29 +335,63 @@ class C18(Prop):
             elif a in ("ctx_ok", "ctx_exc"):
                 before = len(dev.conns)
                 mode["login"] = "ok"
-                inside = None
-                try:
+                seen = {"inside": None, "out": None}
+                # what the body does with the device, and whether the device is still well when the body fails
+                if t == 1:
+                    body = rs.choice([["get_state"], ["turn_on"], ["get_state", "turn_off"], ["set_auto_shutdown"], []])
+                else:
+                    body = rs.choice([["get_shutter_state"], ["set_position"], ["set_position", "get_shutter_state"], ["stop"],
+                                      ["set_position", "stop"], ["stop", "set_position"], ["get_breeze_state"], []])
+                device_dies = a == "ctx_exc" and rs.random() < 0.5
+                body_exc = BODY_EXCEPTIONS[(len(trace) + len(history) + t) % len(BODY_EXCEPTIONS)]
+
+                async def block():
                     async with api as entered:
-                        inside = api.connected
+                        seen["inside"] = api.connected
                         await note_new_conn(before)
                         if entered is not api:
                             acc.violation("aenter-returned-other", "async with did not yield the api object", {})
-                        out = await do_op()
+                        outs = []
+                        for op in body:
+                            r_ = env.rng("C18b", t, history, op)
+                            try:
+                                await ops.call(api, op, ops.gen_args(op, r_, {}, hostile=False), None)
+                                outs.append("returned")
+                            except Exception as exc:
+                                outs.append(type(exc).__name__)
+                        seen["out"] = outs
                         if a == "ctx_exc":
-                            # what the body raises has nothing to do with this client's socket
-                            body_exc = BODY_EXCEPTIONS[(len(trace) + len(history) + t) % len(BODY_EXCEPTIONS)]
+                            if device_dies:
+                                # the usual reason a body fails: the device went quiet; it ends every later exchange at the login
+                                mode["login"] = "eof"
+                            # ... though what the body raises need not have anything to do with this client's socket
                             raise body_exc("raised by the body of async with")
-                    trace.append(f"{a} body {out}")
+
+                try:
+                    await bounded(block())
+                    trace.append(f"{a} body {body} {seen['out']}")
+                except Hung as exc:
+                    hung("async-with", exc)
+                    mode["login"] = "ok"
+                    break
                 except BODY_EXCEPTIONS as exc:
-                    trace.append(f"ctx_exc {type(exc).__name__} propagated")
+                    trace.append(f"ctx_exc body {body} {seen['out']} device_dies={device_dies}: {type(exc).__name__} propagated")
                     acc.count(f"body_exception_{type(exc).__name__}")
+                    if device_dies:
+                        acc.count("body_failed_with_device_gone_quiet")
                     if a != "ctx_exc":
                         acc.violation("context-manager-failed", f"history {history}: async with raised {type(exc).__name__}: {exc}", {"history": history})
+                    elif type(exc) is not body_exc:
+                        acc.count("body_exception_replaced_by_another")   # not part of the statement: recorded, not judged
                 except Exception as exc:
                     trace.append(f"{a} raised {type(exc).__name__}")
                     acc.violation("context-manager-failed", f"history {history}: async with raised {type(exc).__name__}: {exc}", {"history": history})
-                if inside is not True:
-                    acc.violation("not-connected-inside-context", f"history {history}: connected={inside} inside async with", {"history": history})
+                mode["login"] = "ok"
+                if seen["inside"] is not True:
+                    acc.violation("not-connected-inside-context", f"history {history}: connected={seen['inside']} inside async with", {"history": history})
+                if seen["out"] and any(o != "returned" for o in seen["out"]) and not cur["dropped"]:
+                    acc.violation("healthy-operation-failed", f"type {t} history {history}: inside async with, {body} on a healthy connection ended with "
+                                  f"{seen['out']}", {"history": history, "trace": trace})
                 model = False
                 await expect_eof(a)
                 cur["conn"] = None
@@ -304,6 +401,9 @@ class C18(Prop):
                               f"connected={bystander.connected}, its device saw end-of-stream: {bconn.eof_seen.is_set() if bconn else '?'}",
                               {"history": history, "after": a, "trace": trace})
                 break
+
+    async def _after(self, L):
+        acc, history, t, api, dev, trace, bystander, bconn, case = (L[k] for k in ("acc", "history", "t", "api", "dev", "trace", "bystander", "bconn", "case"))
         # the bystander must still work, then goes away cleanly
         try:
             if t == 1:
